@@ -276,6 +276,13 @@ func (c *Chan[T]) Recv2() (v T, ok bool) {
 	if s.Aborted() {
 		return v, false
 	}
+	// whatever the receive sets free (a buffer slot, a blocked sender) may act before the
+	// receiver's next statement runs: a preemption point after the effect as well
+	defer func() {
+		if !s.Aborted() {
+			s.Yield(sched.KRecv, c.id)
+		}
+	}()
 	if c.recvReady() {
 		return c.doRecv(s)
 	}
@@ -339,6 +346,7 @@ func (c *Chan[T]) Close() {
 	c.closed = true
 	c.closeVC = append([]uint32(nil), me.VC...)
 	me.VC[me.ID]++
+	s.Yield(sched.KClose, c.id)
 }
 
 // CloseFromTimer closes the channel from a timer callback (no closing task, no yield).
